@@ -1,7 +1,7 @@
 """E6 sanitizer log triage (policy of DESIGN.md section 5)."""
 import os, re
 
-SOUFFLE_PAT = re.compile(r"(/repo/src/|souffle/(datastructure|utility|io|provenance|profile)/|/src/include/souffle/|interpreter/|synthesiser/|ast2ram/|/ram/|/ast/)")
+SOUFFLE_PAT = re.compile(r"(/repo/src/|/verif/harness/h_|souffle/(datastructure|utility|io|provenance|profile)/|/src/include/souffle/|interpreter/|synthesiser/|ast2ram/|/ram/|/ast/)")
 FRAME = re.compile(r"^\s+#(\d+)\s+(.*?)\s+(\S+?):(\d+)(?::\d+)?\s+\(")
 FRAME2 = re.compile(r"^\s+#(\d+)\s+(.*?)\s+\(")
 
